@@ -1,1 +1,24 @@
-PROP = {'id': 'C12', 'level': 'proof', 'functions': ['AsyncHpcSubmitter.run', 'JobQueue._run_job', 'JobSubmitter._handle_completion', 'HpcSubmitter._is_complete', 'HpcSubmitter._update_completed_jobs', 'HpcSubmitter._cancel_job', 'SlurmManager.submit'], 'native': ['HpcSubmitter.run'], 'records': ['AsyncHpcSubmitter', 'JobQueue', 'JobSubmitter'], 'min_obligations': 600, 'assumptions': ['E1/E2 (environment) for "reaches completion"; the fault schedules (failed sbatch, lost nodes) are explored only by the bounded simulator', 'row producers are exactly AsyncCliCommand._complete / .cancel and HpcSubmitter._cancel_job (call-graph reading, not mechanised)'], 'not_decided': ['which jobs a killed node had really finished', 'dependency cycles end up missing: follows from "a blocker is removed only for a collected name" (C02) but is exercised only by the simulator'], 'explanation': 'A failed submission returns ERROR, marks the handle complete with a non-zero code and is never added to `outstanding`; its jobs stay SUBMITTED (never re-placed, C01); _handle_completion reports exactly the configured jobs without a row as missing and never invents or drops a row; _is_complete forces completion exactly when no batch id is active.'}
+PROP = {'id': 'C12',
+ 'level': 'proof',
+ 'functions': ['AsyncHpcSubmitter.run',
+               'JobQueue._run_job',
+               'JobSubmitter._handle_completion',
+               'HpcSubmitter._is_complete',
+               'HpcSubmitter._update_completed_jobs',
+               'HpcSubmitter._cancel_job',
+               'SlurmManager.submit',
+               'AsyncCliCommand.is_complete',
+               'AsyncCliCommand._complete',
+               'AsyncCliCommand.cancel'],
+ 'native': ['HpcSubmitter.run'],
+ 'records': ['AsyncHpcSubmitter', 'JobQueue', 'JobSubmitter'],
+ 'min_obligations': 600,
+ 'assumptions': ['E1/E2 (environment) for "reaches completion"; the fault schedules (failed sbatch, lost nodes) are explored only by the bounded simulator',
+                 'row producers are exactly AsyncCliCommand._complete / .cancel and HpcSubmitter._cancel_job (call-graph reading, not mechanised)'],
+ 'not_decided': ['which jobs a killed node had really finished',
+                 'dependency cycles end up missing: follows from "a blocker is removed only for a collected name" (C02) but is exercised only by the '
+                 'simulator'],
+ 'explanation': 'A failed submission returns ERROR, marks the handle complete with a non-zero code and is never added to `outstanding`; its jobs stay '
+                'SUBMITTED (never re-placed, C01); _handle_completion reports exactly the configured jobs without a row as missing and never invents or drops '
+                'a row; _is_complete forces completion exactly when no batch id is active. the node-level AsyncCliCommand methods are proved to refine the '
+                'AsyncJob interface contracts JobQueue is verified against.'}
